@@ -3,7 +3,8 @@ import Ibx.Model.Smtp
 import Ibx.Model.Pop3
 /-
   T1 tie for C03End / C13End: the ways a session ends in the models are the ways the regenerated facts
-  (Ibx/Gen/Ends.lean, re-read from pkg/server/{smtp,pop3}/handler.go on every run) report — the loop condition, the
+  (Ibx/Gen/Ends.lean, re-read from pkg/server/{smtp,pop3} on every run; functions found by role, control flow executed
+  path by path — harness/cmd/extract/ends.go, kit_t1a.go) report — the loop condition, the
   literal last replies and the error class that guards each, the silent EOF branch, the armed deadlines, the data-phase
   error exit, POP3's dropped partial line, and the three exits of sendMessage / sendMessageTop after the status line.
   If the source changes one of them, these obligations stop checking.
@@ -13,41 +14,44 @@ open Ibx
 
 /-! ### SMTP -/
 
-/-- `for ssn.state != QUIT && ssn.sendError == nil`: what `Model.Smtp.loop` tests at its head (st = .quit, sendErr) -/
-theorem smtp_loop_cond : Gen.Ends.smtpLoopCond = ["state", "!=", "QUIT", "&&", "sendError", "==", "nil"] := by decide
+/-- `for ssn.state != QUIT && ssn.sendError == nil`: what `Model.Smtp.loop` tests at its head (st = .quit, sendErr);
+    `$state` = the field the command loop dispatches on, `$sendError` = the field the reply helper stores a failed write in -/
+theorem smtp_loop_cond : Gen.Ends.smtpLoopCond = ["$state", "!=", "QUIT", "&&", "$sendError", "==", "nil"] := by decide
 
-/-- command mode: a timeout is answered with `byeText .idle`, any other non-EOF error with `byeText .connErr`, in
-    this order of tests; EOF with nothing; each of the three leaves the loop -/
+/-- command mode, the paths of the loop body on which reading the line failed (executed path by path, so the handling
+    may sit in the loop or in a helper and end with `break` or `return`): a timeout is answered with `byeText .idle`, any
+    other non-EOF error with `byeText .connErr`; EOF with nothing; nothing else happens on them; there are these three
+    classes of such paths (eof, timeout, other) and every one of them leaves the loop -/
 theorem smtp_read_err_sends :
     Gen.Ends.smtpReadErrSends =
       [("timeout", Model.Smtp.byeText .idle), ("other", Model.Smtp.byeText .connErr)] := by decide
 theorem smtp_eof_silent : Gen.Ends.smtpEofSends = [] := by decide
-theorem smtp_read_err_breaks : Gen.Ends.smtpReadErrBreaks = 3 := by decide
+theorem smtp_read_err_breaks : Gen.Ends.smtpReadErrBreaks = 3 ∧ Gen.Ends.smtpReadErrOther = [] := by decide
 
 /-- data phase: only the timeout is answered (`byeOf .timeout .dataCut = some .idle`, `byeOf .neterr .dataCut = none`),
     the state becomes QUIT and the handler returns before any size test or Deliver call -/
 theorem smtp_data_err_sends : Gen.Ends.smtpDataErrSends = [("timeout", Model.Smtp.byeText .idle)] := by decide
-theorem smtp_data_err_exit : Gen.Ends.smtpDataErrCalls = ["enterState", "return"] ∧ Gen.Ends.smtpDataErrState = "QUIT" := by
-  decide
+theorem smtp_data_err_exit : Gen.Ends.smtpDataErrExit = ["state:QUIT; return"] := by decide
 theorem smtp_byeOf_table :
     Model.Smtp.byeOf .timeout .eof = some .idle ∧ Model.Smtp.byeOf .neterr .eof = some .connErr ∧
     Model.Smtp.byeOf .eof .eof = none ∧ Model.Smtp.byeOf .timeout .dataCut = some .idle ∧
     Model.Smtp.byeOf .neterr .dataCut = none ∧ Model.Smtp.byeOf .eof .dataCut = none := by decide
 
-/-- every read and every write is preceded by arming the deadline `time.Now().Add(config.Timeout)` -/
+/-- every read and every write of the connection (the package's I/O calls, whatever the functions around them are
+    called) is preceded by arming the deadline `time.Now().Add(config.Timeout)` -/
 theorem smtp_deadlines :
-    Gen.Ends.smtpDeadlines = [("readLine", "armed"), ("readDataBlock", "armed"), ("send", "armed")] ∧
-    Gen.Ends.smtpNextDeadline = "Now.Add(Timeout)" := by decide
+    Gen.Ends.smtpDeadlines = [("PrintfLine", "armed"), ("ReadDotBytes", "armed"), ("ReadLine", "armed")] ∧
+    Gen.Ends.smtpNextDeadline = ["time.Now().Add($r.config.Timeout)"] := by decide
 
 /-! ### POP3 -/
 
-theorem pop_loop_cond : Gen.Ends.popLoopCond = ["state", "!=", "QUIT", "&&", "sendError", "==", "nil"] := by decide
+theorem pop_loop_cond : Gen.Ends.popLoopCond = ["$state", "!=", "QUIT", "&&", "$sendError", "==", "nil"] := by decide
 
 theorem pop_read_err_sends :
     Gen.Ends.popReadErrSends =
       [("timeout", Model.Pop3.byeText .idle), ("other", Model.Pop3.byeText .connErr)] := by decide
 theorem pop_eof_silent : Gen.Ends.popEofSends = [] := by decide
-theorem pop_read_err_breaks : Gen.Ends.popReadErrBreaks = 3 := by decide
+theorem pop_read_err_breaks : Gen.Ends.popReadErrBreaks = 3 ∧ Gen.Ends.popReadErrOther = [] := by decide
 theorem pop_byeOf_table :
     Model.Pop3.byeOf .timeout .readError = some .idle ∧ Model.Pop3.byeOf .neterr .readError = some .connErr ∧
     Model.Pop3.byeOf .eof .eof = none ∧ Model.Pop3.byeOf .timeout .quit = none := by decide
@@ -56,8 +60,8 @@ theorem pop_byeOf_table :
 theorem pop_partial_line_dropped : Gen.Ends.popReadLineErr = ["lit:"] := by decide
 
 theorem pop_deadlines :
-    Gen.Ends.popDeadlines = [("readLine", "armed"), ("send", "armed")] ∧ Gen.Ends.popNextDeadline = "Now.Add(Timeout)" := by
-  decide
+    Gen.Ends.popDeadlines = [("Fprint", "armed"), ("ReadString", "armed")] ∧
+    Gen.Ends.popNextDeadline = ["time.Now().Add($r.config.Timeout)"] := by decide
 
 /-- the wire form of a `Tail` after the status line -/
 def tailLines : Model.Pop3.Tail → List String
@@ -65,15 +69,17 @@ def tailLines : Model.Pop3.Tail → List String
   | .dotErr => [".", "-ERR Failed to RETR that message, internal error"]
   | .dot => ["."]
 
-/-- sendMessage and sendMessageTop have exactly three exits, in this order: Source() failed (`Tail.err`), the scanner
-    failed (`Tail.dotErr`), the normal end (`Tail.dot`) -/
+/-- the body functions of RETR and TOP (the helpers of those clauses that build the line scanner) have exactly three
+    exits: Source() failed (`Tail.err`), the scanner failed (`Tail.dotErr`), the normal end (`Tail.dot`) -/
 theorem pop_send_exits :
     Gen.Ends.popSendMessageExits = [tailLines .err, tailLines .dotErr, tailLines .dot] ∧
     Gen.Ends.popSendMessageTopExits = [tailLines .err, tailLines .dotErr, tailLines .dot] := by decide
 
-/-- the "+OK" status line of RETR / TOP is sent BEFORE the body function (and so before Source()) is called -/
+/-- the "+OK" status line of RETR / TOP is sent BEFORE the body function (and so before Source()) is called: on every
+    path of those rows that reaches the body function, the event immediately before it is that reply (in format +
+    arguments form: `%s` stands for the plain verbs %s %v %d and for an operand of `+`) -/
 theorem pop_status_before_body :
-    Gen.Ends.popBodyCalls = [("RETR", "send:+OK %v bytes follows ; sendMessage"),
-                             ("TOP", "send:+OK Top of message follows ; sendMessageTop")] := by decide
+    Gen.Ends.popBodyCalls = [("RETR", "send:+OK %s bytes follows ; body"),
+                             ("TOP", "send:+OK Top of message follows ; body")] := by decide
 
 end Ibx.Tie.Ends
